@@ -39,6 +39,7 @@ pub struct Diagnostic { span: Span, msg: String, syntax: bool }
 static PATTERN: AtomicU64 = AtomicU64::new(0);
 static CALLS: AtomicUsize = AtomicUsize::new(0);
 static BADCB: AtomicUsize = AtomicUsize::new(0);
+static BADACT: AtomicUsize = AtomicUsize::new(0);
 static LASTFLAG: AtomicUsize = AtomicUsize::new(0);
 static ERRNODES: AtomicUsize = AtomicUsize::new(0);
 static CURRENT: Mutex<String> = Mutex::new(String::new());
@@ -117,6 +118,7 @@ fn check(src: &str, which: usize) -> Result<(), Fail> {
     let toks: Vec<Token> = src.chars().map(tok_of).collect();
     let mut diags = vec![];
     BADCB.store(0, Ordering::SeqCst);
+    BADACT.store(0, Ordering::SeqCst);
     LASTFLAG.store(0, Ordering::SeqCst);
     ERRNODES.store(0, Ordering::SeqCst);
     let cst = run_parse(src, which, &mut diags);
@@ -127,6 +129,7 @@ fn check(src: &str, which: usize) -> Result<(), Fail> {
         if *idx != k || *t != toks[k] || *sp != (k..k + 1) { return Err(Fail(format!("C01 leaf {} is ({:?}, index {}, span {:?}) but input token {} is {:?}", k, t, idx, sp, k, toks[k]))); }
     }
     if BADCB.load(Ordering::SeqCst) != 0 { return Err(Fail("C02 a created callback announced a node that does not have the announced kind".into())); }
+    if BADACT.load(Ordering::SeqCst) != 0 { return Err(Fail("C08 a semantic action ran while an ordered-choice alternative could still be abandoned (in_ordered_choice was set)".into())); }
     let mut lastpos: i64 = -1;
     for d in diags.iter().filter(|d| d.syntax) {
         if d.span.start > d.span.end || d.span.end > src.len() { return Err(Fail(format!("C06 diagnostic span {:?} outside the source (len {})", d.span, src.len()))); }
@@ -361,7 +364,7 @@ def build_harness(gen_text, outdir):
     for p in preds:
         cbs.append("    fn %s(&self) -> bool { next_bit() }" % p)
     for a in acts:
-        cbs.append("    fn %s(&mut self, _d: &mut Vec<Self::Diagnostic>) { }" % a)
+        cbs.append("    fn %s(&mut self, _d: &mut Vec<Self::Diagnostic>) { if self.in_ordered_choice { BADACT.fetch_add(1, Ordering::SeqCst); } }" % a)
     for a in asserts:
         cbs.append("    fn %s(&self) -> Option<Self::Diagnostic> { if next_bit() { Some(Diagnostic { span: 0..0, msg: String::new(), syntax: false }) } else { None } }" % a)
     for var, name in re.findall(r"Rule::(\w+)\s*=>\s*self\s*\.\s*create_node_(\w+)\s*\(", gen_text):
